@@ -195,7 +195,7 @@ def docstring(
             line = candidate_doc_str[prev_nl:next_nl]
             if not line.isspace():
                 break
-            # prev_nl = next_nl
+            prev_nl, next_nl = next_nl + 1, candidate_doc_str.find("\n", next_nl + 1)
             # current_indent:int = count_iter_items(takewhile(str.isspace, line))
 
     if indent_level > current_indent:
